@@ -15,7 +15,7 @@ IR = os.path.join(SPECS, "ir")
 NAMES4 = ["a", "b", "a", "<none>"]
 CONSTS4 = [True, True, False, True]
 
-FOCI = ["coll", "multi", "nodelist", "nodeio", "replace"]
+FOCI = ["coll", "multi", "nodelist", "nodeio", "replace", "newgraph"]
 
 
 def _cfg_variant(scratch: str, focus: str, **subst) -> str:
@@ -54,8 +54,9 @@ def run_engine(ctx, want_cls: str) -> None:
             raise MachineryError(f"{label}: {stats['unparsed']} emitted records could not be parsed")
 
     # ---- (A) exhaustive exploration per focus, every (state, call) replayed --------------------
-    for focus in FOCI:
-        depth = {"replace": 3 if thorough else 2}.get(focus, 4 if thorough and focus != "nodeio" else 3)
+    foci = [f for f in FOCI if f in os.environ.get("VERIF_IR_FOCI", ",".join(FOCI)).split(",")]   # (development aid)
+    for focus in foci:
+        depth = {"replace": 3 if thorough else 2, "newgraph": 3 if thorough else 2}.get(focus, 4 if thorough and focus != "nodeio" else 3)
         cfg = _cfg_variant(ctx.scratch, focus, MaxDepth=depth)
         res = ctx.tlc(mc_tla, cfg, tag=f"mc-{focus}", timeout=3000 if thorough else 900)
         if res.violated or res.errors or res.returncode != 0:
